@@ -8147,6 +8147,10 @@ func (c *BytecodeCompiler) emitFloat(f value.Float, location *position.Location)
 	line := location.StartPos.Line
 	switch f {
 	case 0:
+		if math.Signbit(float64(f)) {
+			// negative zero has no dedicated instruction
+			break
+		}
 		c.emit(line, bytecode.FLOAT_0)
 		return
 	case 1:
